@@ -284,11 +284,11 @@ def traces(target, rng, tier):
     mps = target.params["mps"]
     s = Script(target)
     big = mps >= 256
-    n = (2 if big else 14) if tier == "quick" else (5 if big else 42)
+    n = (1 if big else 12) if tier == "quick" else (5 if big else 42)
     out = []
     for k in range(n):
         style = k % 7
-        ncyc = rng.randint(40, 160) + (int(1.6 * mps) if big else 8 * mps)
+        ncyc = rng.randint(40, 160) + (int((2.4 if tier == 'quick' else 1.6) * mps) if big else 8 * mps)
         o = dict(small=(target.role == "R"))
         if style == 0:
             o.update(p_valid=1.0, p_ready=1.0, p_poll=0.9, p_more=0.95, ack_delay=(1, 2), p_retry=0.05)   # full throughput
